@@ -104,6 +104,17 @@ fn open_commitment(commitment: &Commitment, value: &[u8]) -> bool {
     blake3::hash(value).as_bytes() == &commitment.0
 }
 
+/// The bytes of `value` followed by 16 bits for the id of the party that commits to it.
+///
+/// Binding the id into a commitment ensures unique commitments: a party cannot pass off the
+/// commitment of another party (and later the value that party opens) as its own.
+fn with_party_id(value: u128, party: usize) -> [u8; 18] {
+    let mut value_id = [0u8; 18];
+    value_id[..16].copy_from_slice(&value.to_be_bytes());
+    value_id[16..].copy_from_slice(&(party as u16).to_be_bytes());
+    value_id
+}
+
 /// Hashes a Vec<T> using blake3 and returns the resulting hash as `u128`.
 ///
 /// The hash is truncated to 128 bits to match the input size. Due to the truncation, the security
@@ -912,7 +923,7 @@ async fn flaand(
             hi[ll] ^= mk_zi.0 ^ ki_zk.0 ^ ki_xj_phi[k][ll];
         }
         hi[ll] ^= (xshares[ll].0 as u128 * phi[ll]) ^ (zshares[ll].0 as u128 * delta.0);
-        commhi.push(commit(&hi[ll].to_be_bytes()));
+        commhi.push(commit(&with_party_id(hi[ll], i)));
     }
     drop(phi);
     drop(ki_xj_phi);
@@ -926,7 +937,7 @@ async fn flaand(
     let mut xor_all_hi = hi; // XOR for all parties, including p_own
     for k in (0..n).filter(|k| *k != i) {
         for (ll, (xh, hi_k)) in xor_all_hi.iter_mut().zip(hi_k[k].clone()).enumerate() {
-            if !open_commitment(&commhi_k[k][ll], &hi_k.to_be_bytes()) {
+            if !open_commitment(&commhi_k[k][ll], &with_party_id(hi_k, k)) {
                 return Err(Error::CommitmentCouldNotBeOpened);
             }
             *xh ^= hi_k;
